@@ -54,9 +54,9 @@ def check(ctx):
                 okq = src(base) == "self.txes.popleft()" and src(low).startswith(sendpat + "(")
             else:
                 okq = False
-            gt = V.tests(lambda t: isinstance(t, ast.Compare) and len(t.ops) == 1 and isinstance(t.ops[0], ast.Lt) and
-                         src(V.sym(t.left, rn)).startswith(sendpat + "(") and src(V.sym(t.comparators[0], rn)) == "len(self.txes.popleft())")
-            okq = okq and bool(gt) and V.dominated_by_edge([rn], gt[0], "T")
+            # guard, by value and in any spelling (`count < len(data)`, `len(data) > count`, the else of `count >= len(data)`, ..)
+            fs = V.symfacts(rn)
+            okq = okq and any(f.startswith(sendpat + "(") and f.endswith(" < len(self.txes.popleft())") for f in fs)
         ctx.check(okq, "T9-tx", req[0][1] if req else f, "%s.%s re-queues exactly popped[sent:] at the head when sent < len(popped): %s" % (cn, fname, shape),
                   "after a partial or blocked send the unsent tail must go back to the *front* of the same queue, starting exactly "
                   "at the number of bytes the socket accepted; anything else loses, repeats or reorders bytes")
@@ -103,7 +103,7 @@ def check(ctx):
         wl = V.need(V.calls("self.wlog.writeTx"), "wlog.writeTx in %s.send" % cn)
         rt = V.tests(lambda t: dotted(t) == "result")
         rets = [n for n in V.cfg.nodes if n.kind == "return"]
-        ok = len(wl) == 1 and src(wl[0][1].args[-1]) == "data[:result]" and bool(rt) and V.dominated_by_edge([wl[0][0]], rt[0], "T") and \
+        ok = len(wl) == 1 and src(V.sym(wl[0][1].args[-1], wl[0][0])) in ("data[:result]", "data[:self.cs.send(data)]") and bool(rt) and V.dominated_by_edge([wl[0][0]], rt[0], "T") and \
             bool(rets) and all(dotted(r.ast.value) == "result" for r in rets)
         sends = V.calls("self.cs.send")
         ok = ok and len(sends) == 1 and src(sends[0][1].args[0]) == "data"
